@@ -298,3 +298,24 @@ def SyntaxErrors():
         def syntaxError(self, recognizer, offendingSymbol, line, column, msg, e):  # noqa: N802,N803
             self.errors.append(f"{line}:{column}: {msg}")
     return _Listener()
+
+
+# ------------------------------------------------------------------ hypothesis of C02_uvl_nonempty / C02_afm_nonempty
+class ParserHypothesisViolated(Exception):
+    """the external parser produced a tree the reader theorems exclude (an empty group): the theorems' premise, not the
+    reader under test, has failed — the suite stops and the check reports the obligation as broken"""
+
+
+def assert_no_empty_group(cst, path):
+    """(g kind ()) in a UVL tree, (ig a b ()) in an AFM tree"""
+    stack = [cst]
+    while stack:
+        x = stack.pop()
+        if isinstance(x, (list, tuple)):
+            if len(x) == 3 and x[0] == "g" and isinstance(x[2], (list, tuple)) and len(x[2]) == 0 \
+                    and str(x[1]) not in ("optional", "mandatory", "opt", "mand", "GOpt", "GMand"):
+                raise ParserHypothesisViolated(f"parser:empty-group in {path}")
+            if len(x) == 4 and x[0] == "ig" and isinstance(x[3], (list, tuple)) and len(x[3]) == 0:
+                raise ParserHypothesisViolated(f"parser:empty-group in {path}")
+            stack.extend(x)
+    return cst
